@@ -22,6 +22,7 @@ import (
 	"sort"
 	"strings"
 	"sync"
+	"sync/atomic"
 	"testing"
 	"time"
 
@@ -557,6 +558,16 @@ func verifC36Command(t *rapid.T, cfg verifC36Config, i int) SendCommand {
 	}
 	if rapid.IntRange(0, 4).Draw(t, "cmdSuffix") == 0 {
 		cmd.ChannelID = runtimechannelid.ToCommandChannel(cmd.ChannelID)
+		if rapid.IntRange(0, 5).Draw(t, "doubleSuffix") == 3 {
+			// a client-chosen id that ends in the suffix twice. Excluded by
+			// construction (and counted) while the finding is listed as known;
+			// TestVerifC36DoubledCommandSuffix re-establishes it on every run.
+			if verifC36DoubledSuffixKnown() {
+				verifC36Excluded.Add(1)
+			} else {
+				cmd.ChannelID += runtimechannelid.CommandChannelSuffix
+			}
+		}
 	}
 	switch rapid.IntRange(0, 39).Draw(t, "scoped") {
 	case 17:
@@ -612,11 +623,26 @@ func verifC36SameErr(a, b error) bool {
 	return errors.Is(a, b) || errors.Is(b, a)
 }
 
-func verifC36Same(a, b verifC36Verdict) bool {
+// verifC36Same compares decision, reason, error identity and the channel id
+// handed to the submitter.
+func verifC36Same(cmd SendCommand, a, b verifC36Verdict) bool {
 	if a.allowed != b.allowed || a.reason != b.reason || !verifC36SameErr(a.err, b.err) {
 		return false
 	}
 	return !a.allowed || a.channelID == b.channelID
+}
+
+const verifC36DoubledSuffixSignature = "doubled-command-suffix:paths-diverge"
+
+var verifC36Excluded atomic.Int64
+
+// verifC36DoubledSuffixKnown: the finding is listed in known_findings.json.
+func verifC36DoubledSuffixKnown() bool {
+	return kit.HasKnownFinding("C36", verifC36DoubledSuffixSignature)
+}
+
+func verifC36DoubleSuffix(cmd SendCommand) bool {
+	return strings.HasSuffix(cmd.ChannelID, runtimechannelid.CommandChannelSuffix+runtimechannelid.CommandChannelSuffix)
 }
 
 func TestVerifC36PermissionPaths(t *testing.T) {
@@ -719,7 +745,7 @@ func TestVerifC36PermissionPaths(t *testing.T) {
 			if seen, ok := singleSub.seen[cmd.ClientMsgNo]; ok {
 				viaSend.allowed, viaSend.channelID = true, seen.ChannelID
 			}
-			if !verifC36Same(got1[i], viaSend) {
+			if !verifC36Same(cmd, got1[i], viaSend) {
 				rt.Fatalf("VERIF-VIOLATION C36: Send and checkSendPermission disagree: %v vs %v\n%s", viaSend, got1[i], explain(i))
 			}
 		}
@@ -766,16 +792,16 @@ func TestVerifC36PermissionPaths(t *testing.T) {
 
 		twoReasons, sawTrusted, sawBatchedKind := false, false, false
 		for i, cmd := range cmds {
-			if !verifC36Same(got1[i], got2[i]) {
+			if !verifC36Same(cmd, got1[i], got2[i]) {
 				rt.Fatalf("VERIF-VIOLATION C36: per-send and batched paths disagree\n per-send %v\n batched  %v\n reference %v\n%s", got1[i], got2[i], want[i], explain(i))
 			}
-			if !verifC36Same(got1[i], got3[i]) {
+			if !verifC36Same(cmd, got1[i], got3[i]) {
 				rt.Fatalf("VERIF-VIOLATION C36: per-send and SendBatch worker fallback disagree\n per-send %v\n fallback %v\n%s", got1[i], got3[i], explain(i))
 			}
-			if !verifC36Same(got1[i], got4[i]) {
+			if !verifC36Same(cmd, got1[i], got4[i]) {
 				rt.Fatalf("VERIF-VIOLATION C36: per-send with and without the read-through cache disagree\n uncached %v\n cached   %v\n%s", got1[i], got4[i], explain(i))
 			}
-			if !verifC36Same(want[i], got1[i]) {
+			if !verifC36DoubleSuffix(cmd) && !verifC36Same(cmd, want[i], got1[i]) {
 				rt.Fatalf("VERIF-VIOLATION C36: decision differs from the documented precedence\n reference %v\n per-send  %v\n batched   %v\n%s", want[i], got1[i], got2[i], explain(i))
 			}
 			// trusted senders are refused only for the terminal state
@@ -802,6 +828,9 @@ func TestVerifC36PermissionPaths(t *testing.T) {
 			}
 			if (cmd.ChannelType == channelTypeGroup || cmd.ChannelType == channelTypePerson) && !cmd.RequestScoped && len(cmd.MessageScopedUIDs) == 0 {
 				sawBatchedKind = true
+			}
+			if verifC36DoubleSuffix(cmd) {
+				k.Label("channel id with the command suffix twice")
 			}
 			k.Label(fmt.Sprintf("outcome reason=%d err=%v", got1[i].reason, got1[i].err != nil))
 			k.Label(fmt.Sprintf("channel type %d", cmd.ChannelType))
@@ -832,4 +861,82 @@ func TestVerifC36PermissionPaths(t *testing.T) {
 			return strings.Join(parts, "; ")
 		})
 	})
+	kit.For(t, "C36").AddExtra("excluded_by_known_finding", verifC36Excluded.Load())
+}
+
+// TestVerifC36DoubledCommandSuffix: deterministic reproduction of the one
+// place where the two paths are known to diverge — a client-chosen channel id
+// that ends in the command suffix twice. checkSendPermission strips one suffix
+// and re-applies it idempotently; the raw-fact person path strips, re-applies
+// and strips again, so the two paths consult the deny list of different
+// receivers (and the group paths forward different channel ids).
+func TestVerifC36DoubledCommandSuffix(t *testing.T) {
+	col := kit.For(t, "C36")
+	// a sender whose canonical pair with "u2____cmd" ends in the suffix
+	sender := ""
+	for i := 0; i < 200 && sender == ""; i++ {
+		cand := fmt.Sprintf("s%d", i)
+		if strings.HasSuffix(runtimechannelid.EncodePersonChannel(cand, "u2"+runtimechannelid.CommandChannelSuffix), runtimechannelid.CommandChannelSuffix) {
+			sender = cand
+		}
+	}
+	if sender == "" {
+		t.Fatalf("VERIF-MACHINERY: no sender name found")
+	}
+	denyU2 := channelmembers.DenylistChannelID(channelmembers.ChannelKey{ChannelID: "u2", ChannelType: channelTypePerson})
+	world := &verifC36World{facts: map[verifC36Key]verifC36Fact{
+		{kind: PermissionReadSubscriberContains, channelID: denyU2, channelType: 1, uid: sender}: {value: true}, // u2 blocks the sender
+		{kind: PermissionReadChannel, channelID: "g1", channelType: 2}:                          {found: true, channel: metadb.Channel{ChannelID: "g1", ChannelType: 2}},
+		{kind: PermissionReadSubscriberContains, channelID: "g1", channelType: 2, uid: sender}:  {value: true},
+		{kind: PermissionReadChannel, channelID: "g1____cmd", channelType: 2}:                   {found: true, channel: metadb.Channel{ChannelID: "g1____cmd", ChannelType: 2}},
+		{kind: PermissionReadSubscriberContains, channelID: "g1____cmd", channelType: 2, uid: sender}: {value: true},
+	}}
+	cmds := []SendCommand{
+		{FromUID: sender, ChannelID: "u2____cmd", ChannelType: channelTypePerson, NormalizePersonChannel: true, ClientMsgNo: "single", ClientSeq: 1},
+		{FromUID: sender, ChannelID: "u2____cmd____cmd", ChannelType: channelTypePerson, NormalizePersonChannel: true, ClientMsgNo: "person", ClientSeq: 2},
+		{FromUID: sender, ChannelID: "g1____cmd____cmd", ChannelType: channelTypeGroup, ClientMsgNo: "group", ClientSeq: 3},
+	}
+	var diverged []string
+	for i, cmd := range cmds {
+		singleSub, batchSub := &verifC36Submitter{}, &verifC36Submitter{}
+		single := New(Options{Submitter: singleSub, PermissionStore: verifC36Store{w: world}})
+		batched := New(Options{Submitter: batchSub, PermissionStore: verifC36Store{w: world}, PermissionBatchStore: verifC36BatchStore{verifC36Store{w: world}}})
+		res, err := single.Send(context.Background(), cmd.Clone())
+		a := verifC36Verdict{reason: res.Reason, err: err}
+		if seen, ok := singleSub.seen[cmd.ClientMsgNo]; ok {
+			a.allowed, a.channelID = true, seen.ChannelID
+		}
+		out := batched.SendBatch([]SendBatchItem{{Context: context.Background(), Command: cmd.Clone()}})
+		b := verifC36Verdict{reason: out[0].Result.Reason, err: out[0].Err}
+		if seen, ok := batchSub.seen[cmd.ClientMsgNo]; ok {
+			b.allowed, b.channelID = true, seen.ChannelID
+		}
+		same := verifC36Same(cmd, a, b)
+		if i == 0 {
+			if !same || a.reason != ReasonInBlacklist {
+				t.Fatalf("VERIF-VIOLATION C36: single command suffix: per-send %v batched %v, want both InBlacklist", a, b)
+			}
+			continue
+		}
+		if !same {
+			diverged = append(diverged, fmt.Sprintf("%s→%q type %d: per-send %v, batched %v", cmd.FromUID, cmd.ChannelID, cmd.ChannelType, a, b))
+		}
+	}
+	k := col.NewCase()
+	k.Key("doubled-suffix")
+	k.NonTrivial()
+	if len(diverged) == 0 {
+		k.Label("doubled command suffix: paths agree")
+		col.Commit(k)
+		return
+	}
+	msg := strings.Join(diverged, "\n  ")
+	if kit.KnownFinding("C36", verifC36DoubledSuffixSignature) {
+		k.Label("known finding re-established: doubled command suffix")
+		k.Sample(func() any { return "KNOWN: " + msg })
+		col.Commit(k)
+		t.Logf("known finding %s re-established:\n  %s", verifC36DoubledSuffixSignature, msg)
+		return
+	}
+	t.Fatalf("VERIF-VIOLATION C36 [%s]: per-send and batched paths disagree for a channel id that carries the command suffix twice (u2 has the sender on its deny list)\n  %s", verifC36DoubledSuffixSignature, msg)
 }
